@@ -31,7 +31,12 @@ ASSUMPTIONS = {
 
 
 def _content(rng):
-    kind = gen.weighted(rng, [(2, "tiny"), (3, "sniff"), (3, "read"), (2, "crlf"), (2, "head_tail"), (2, "rand"), (3, "ratio")])
+    kind = gen.weighted(rng, [(2, "tiny"), (3, "sniff"), (3, "read"), (2, "crlf"), (2, "head_tail"), (2, "rand"), (3, "ratio"),
+                              (2, "late_crlf")])
+    if kind == "late_crlf":
+        # text whose first line break lies at or beyond the end of the 512-byte sniffing window
+        n = rng.choice([510, 511, 512, 513, 600, 2000])
+        return b"w" * n + b"\r\n" + rng.choice([b"", b"second line\r\nthird\r\n", b"x" * 700 + b"\r\n"])
     if kind == "ratio":
         # first 512 bytes with k non-text bytes around the 30% threshold (153.6), no NUL, CRLFs inside
         k = rng.choice([150, 152, 153, 154, 155, 156, 157, 158, 159, 160])
@@ -238,6 +243,20 @@ def execute(sc, ctx):
         streams += 1
         if hi.value != model.ref_digest("md5-dos2unix", data):
             ctx.violate("hash_file-digest-wrong", "md5-dos2unix:info-carries-plain-md5", f"len={len(data)}")
+    # ---- route 3c: hash_file() with caller-supplied stat info that is STALE (the file grew after it was
+    # listed): the digest is that of the bytes that are there, whatever size the caller believed
+    if len(data) > 2**20:
+        from dvc_data.hashfile.hash import hash_file
+
+        fp = w.p("hf", "grown")
+        w.raw_write(fp, data)
+        for name in ("md5", "sha256"):
+            info = dict(w.localfs.info(fp))
+            info["size"] = 2**20 - crng.choice([1, 7, 4096])
+            _, hi = hash_file(fp, w.localfs, name, info=info)
+            streams += 1
+            if hi.value != model.ref_digest(name, data):
+                ctx.violate("hash_file-digest-wrong", f"{name}:stale-size-in-info", f"len={len(data)} believed={info['size']}")
     # ---- route 4: upload staging: the streamed digest names the object -----
     srcfs = w.remote_fs("src")
     srcfs.raw_put("/src/file", data)
